@@ -150,13 +150,60 @@ def race_oracle(case):
     return None
 
 
+def etcd_case(seed, i, engine):
+    """The same refusal through the etcd-facing API (suite `etcd`, the real RPCServer): after the node's own compaction
+    (`bcompact`) a Range at an explicit revision below the floor must be refused — the plain range AND the count_only
+    range (which dropped the request's revision before /repo 5f2847c and answered with the current count)."""
+    from . import c16
+    r = rng_for(seed, "c08etcd/%d" % i)
+    keys = r.sample([k for k in KEY_POOL if b"events" not in k], r.randint(3, 5))
+    sh = c16.Shadow()
+    lines = [c16.cfg_line(engine)]
+    for _ in range(r.randint(6, 12)):
+        lines += c16.gen_write_plain(r, sh, keys)
+    lo, hi = PREFIX + b"/", PREFIX + b"0"
+    floor = hist.INIT
+    for _ in range(2):
+        floor = r.randint(max(floor, hist.INIT + 2), sh.dealt)
+        lines.append("bcompact %d" % floor)
+        for rev in sorted(set([floor - 1, floor, max(hist.INIT + 1, floor - r.randint(2, 5)), sh.dealt, r.randint(hist.INIT + 1, sh.dealt)])):
+            if rev != c16.MAGIC:
+                lines += [c16.render_range(lo, hi, rev=rev), c16.render_range(lo, hi, rev=rev, flags="c"),
+                          c16.render_range(lo, hi, rev=rev, limit=1)]
+        lines += [c16.render_range(lo, hi), c16.render_range(lo, hi, flags="c")]
+        for _ in range(r.randint(2, 5)):
+            lines += c16.gen_write_plain(r, sh, keys)
+    return c16.EtcdCase("etcd", lines, {"engine": engine, "etcd": True})
+
+
+def etcd_oracle(case):
+    accepted = 0
+    for i, (line, out) in enumerate(zip(case.lines, case.impl)):
+        t, o = line.split(), out.split()
+        if t[0] == "bcompact" and len(o) == 2 and o[1].isdigit():
+            accepted = max(accepted, int(o[1]))
+        elif t[0] == "range" and len(o) > 1 and o[1] != "err":
+            opts = dict(x.split("=", 1) for x in t[3:])
+            R = int(opts.get("rev", "0"))
+            if 0 < R < accepted:
+                what = "count_only range" if "c" in opts.get("flags", "") else "range"
+                return ("line %d: %s -> %s: an etcd %s at revision %d was answered with data although a compaction at %d was accepted "
+                        "(the same range without count_only is refused)" % (i + 1, line, out[:160], what, R, accepted),
+                        "etcd-count-below-floor" if "c" in opts.get("flags", "") else "etcd-read-below-floor")
+    return None
+
+
 def check(rep, tier, seed):
     n_hist, n_rounds = (24, 8) if tier == "quick" else (3000, 14)
-    cases = [gen_case(seed, i, ENGINES[i % len(ENGINES)], n_rounds) for i in range(n_hist)]
+    # the refusal through the etcd-facing API first (few, cheap scripts), then the backend histories and races
+    cases = [etcd_case(seed, i, ENGINES[i % len(ENGINES)]) for i in range(6 if tier == "quick" else 120)]
+    cases += [gen_case(seed, i, ENGINES[i % len(ENGINES)], n_rounds) for i in range(n_hist)]
     cases += [race_case(seed, i, ENGINES[i % 3]) for i in range(12 if tier == "quick" else 1500)]
     cases += [overtaken_case(seed, i, ENGINES[i % 3]) for i in range(12 if tier == "quick" else 1500)]
     core.run_cases(cases)
-    pick = lambda c: race_oracle(c) if c.meta.get("race") else overtaken_oracle(c) if c.meta.get("overtaken") else oracle(c)
-    if core.judge(rep, "C08", cases, pick, shrink_fn=lambda x: pick(x) is not None):
+    pick = lambda c: (etcd_oracle(c) if c.meta.get("etcd") else race_oracle(c) if c.meta.get("race")
+                      else overtaken_oracle(c) if c.meta.get("overtaken") else oracle(c))
+    plain = lambda c: not (c.meta.get("etcd") or c.meta.get("race") or c.meta.get("overtaken"))
+    if core.judge(rep, "C08", cases, pick, shrink_fn=lambda x: plain(x) and oracle(x) is not None):
         return
     rep.assumptions += ["sequential compaction requests (a single compactor, as run by the leader's periodic job)"]
